@@ -27,6 +27,11 @@ type Frame struct {
 	lastSym   map[*ssa.BasicBlock]int
 	symCount  int // symbolic branch decisions taken in this activation
 	total     int
+	epoch     int     // st.nforks when the frame was pushed
+	heapBase  int     // len(st.heap) when the frame was pushed
+	fx        fxCount // side-effect counters when the frame was pushed
+	pcBase    int     // len(st.pc) when the frame was pushed
+	dirty     bool    // wrote to an object older than the frame
 }
 
 type draw struct {
@@ -88,6 +93,7 @@ type State struct {
 	csections int // number of critical sections opened (Lock calls)
 	mapOps    []string
 	steps     int
+	retDirty  bool // the frame popped last had written to memory older than itself
 }
 
 func newState() *State {
@@ -120,6 +126,7 @@ func (s *State) clone() *State {
 		csections: s.csections,
 		mapOps:    append([]string(nil), s.mapOps...),
 		steps:     s.steps,
+		retDirty:  s.retDirty,
 	}
 	if s.panicking != nil {
 		pi := *s.panicking
@@ -219,9 +226,26 @@ func setPath(v Value, path []int, nv Value) Value {
 func (s *State) load(p Ptr) Value {
 	return getPath(s.heap[p.Obj].Cell, p.Path)
 }
+
+// touch marks every active frame for which object id already existed when
+// the frame was pushed as having written to pre-existing memory.
+func (s *State) touch(id int) {
+	for i := len(s.stack) - 1; i >= 0; i-- {
+		f := s.stack[i]
+		if id >= f.heapBase {
+			break
+		}
+		f.dirty = true
+	}
+}
+
+func (s *State) setCell(id int, cell Value) {
+	s.touch(id)
+	s.heap[id] = &Object{Cell: cell, Tag: s.heap[id].Tag}
+}
+
 func (s *State) store(p Ptr, v Value) {
-	o := s.heap[p.Obj]
-	s.heap[p.Obj] = &Object{Cell: setPath(o.Cell, p.Path, v), Tag: o.Tag}
+	s.setCell(p.Obj, setPath(s.heap[p.Obj].Cell, p.Path, v))
 }
 
 // arr returns the backing array of a slice.
@@ -234,8 +258,18 @@ func (s *State) arr(sl Slice) Array {
 	return a
 }
 func (s *State) setArr(sl Slice, a Array) {
-	o := s.heap[sl.Obj]
-	s.heap[sl.Obj] = &Object{Cell: setPath(o.Cell, sl.Path, a), Tag: o.Tag}
+	s.setCell(sl.Obj, setPath(s.heap[sl.Obj].Cell, sl.Path, a))
+}
+
+// fxCount summarises the side effects a callee could have besides heap writes.
+type fxCount struct {
+	draws, picks, covers, locks, events, obs, asserts, csections, accesses int
+	mono                                                                *Term
+	panicking                                                           bool
+}
+
+func (s *State) effects() fxCount {
+	return fxCount{len(s.draws), len(s.picks), len(s.covers), len(s.locks), len(s.events), len(s.obs), s.asserts, s.csections, len(s.accesses), s.lastMono, s.panicking != nil}
 }
 
 func (s *State) top() *Frame { return s.stack[len(s.stack)-1] }
